@@ -2085,3 +2085,79 @@ func c05r14(rc *core.RC) {
 		rc.Unknown(fn+"/accepting-returns", fd.Pos(), "no return with ok = true found")
 	}
 }
+
+// ---- C05.R16 the literal validators compare every letter of their literal ----
+
+// validateTrue, validateFalse and validateNull (buffer mode) are entered with the cursor on the first letter; the
+// callers step over the whole literal when they return nil. Obligation, for each of the three: the tests
+// `buf[cursor+k] != 'c'` that leave with an error are exactly one per letter behind the first, at the letter's own
+// offset and with the letter itself (a test that is missing or looks at a neighbour's place lets `nuxl` pass for null).
+func c05r16(rc *core.RC) {
+	p := rc.P
+	for _, lit := range []struct{ fn, text string }{{"validateTrue", "true"}, {"validateFalse", "false"}, {"validateNull", "null"}} {
+		fd := p.Func("decoder", lit.fn)
+		key := "decoder." + lit.fn + "/every-letter-compared"
+		if fd == nil || fd.Body == nil {
+			rc.Unknown(key, token.NoPos, "function not found")
+			continue
+		}
+		rc.Touch(p.FuncName(fd))
+		info := p.Info(fd)
+		cf := core.BuildCFGFor(fd, info)
+		got := map[int64][]int64{}
+		ast.Inspect(fd.Body, func(m ast.Node) bool {
+			ifs, ok := m.(*ast.IfStmt)
+			if !ok || len(ifs.Body.List) == 0 {
+				return true
+			}
+			r, isRet := ifs.Body.List[len(ifs.Body.List)-1].(*ast.ReturnStmt)
+			if !isRet || !cf.IsFailure(r) {
+				return true
+			}
+			for _, d := range disjuncts(ifs.Cond) {
+				be, isB := core.Unparen(d).(*ast.BinaryExpr)
+				if !isB || be.Op != token.NEQ {
+					continue
+				}
+				c, isC := core.ConstInt(info, be.Y)
+				if !isC {
+					continue
+				}
+				if _, k, okA := accessOffset(info, be.X); okA {
+					got[k] = append(got[k], c)
+				}
+			}
+			return true
+		})
+		if len(got) == 0 {
+			rc.Unknown(key, fd.Pos(), "no comparison of a byte behind the cursor with a constant that leaves with an error was recognised")
+			continue
+		}
+		var wrong []string
+		for k := 1; k < len(lit.text); k++ {
+			cs := got[int64(k)]
+			has := false
+			for _, c := range cs {
+				if c == int64(lit.text[k]) {
+					has = true
+				} else {
+					wrong = append(wrong, fmt.Sprintf("offset %d is compared with %q, the literal has %q there", k, rune(c), rune(lit.text[k])))
+				}
+			}
+			if !has {
+				wrong = append(wrong, fmt.Sprintf("the letter %q at offset %d is not compared", rune(lit.text[k]), k))
+			}
+		}
+		for k := range got {
+			if k < 1 || k >= int64(len(lit.text)) {
+				wrong = append(wrong, fmt.Sprintf("a byte at offset %d, outside the literal, is compared", k))
+			}
+		}
+		sort.Strings(wrong)
+		if len(wrong) == 0 {
+			rc.OK(key, fd.Pos(), "the %d letters behind the first are compared one by one with %q", len(lit.text)-1, lit.text[1:])
+		} else {
+			rc.Bad(key, fd.Pos(), "%s accepts texts that are not %q (the callers step over %d bytes and take the value for the literal): %s", lit.fn, lit.text, len(lit.text), strings.Join(wrong, "; "))
+		}
+	}
+}
